@@ -126,6 +126,12 @@ CLAIMED.update({
                 note="repr/format of floats is C code, so floats are not symbolic. Dictionary keys are enumerated (the parser hashes them). Two known findings (non-ASCII strings re-read as bytes literals; all-ASCII BytesAttr re-read as StringAttr) are limitations of the shared literal syntax and are recorded; one defect repaired (hex float elements of dense/array attributes)."),
 })
 
+CLAIMED.update({
+    "C04": dict(cat="bounded_symbolic", design="DESIGN.md §4 C04",
+                text="Unit-symbolic (M1) on names: 11 IR skeletons (repeated/unnamed/hinted results, multi-result ops, block arguments, several blocks with forward branches, hinted blocks next to automatically named ones, nested and sibling regions, an IsolatedFromAbove op with results followed by definitions, a terminator with a forward successor that owns a region, graph-style forward value references) are built through the IR API with SYMBOLIC value and block name hints (1-2 cells over all of Unicode; up to 4, thorough 5, cells over the identifier alphabet); hints the API refuses end the path. The real Printer prints the generic form, the real lexer and Parser read the symbolic text back in a fresh context, and z3 decides for all hints: it parses, the structure (ops, wiring, types, attributes, successors, layout) is the same, re-printing the parsed module gives the same text, and printing the original twice gives the same text.",
+                note="Skeleton shapes are enumerated, names are symbolic; attribute payloads are C06; custom formats are C05 (not applicable). Printer/Parser name tables are list-backed dictionaries (stub) so symbolic names need no hashing. Three defects repaired (Unicode hints, repeated _<n> suffixes, bb<n> block hints). Branches to a region's entry block are outside the catalogue (MLIR forbids them; the entry label is not printed)."),
+})
+
 NOT_APPLICABLE = {
     "C05": "custom assembly formats: the quantifier is over ~80 dialects' op definitions/format programs; no data dimension for a solver beyond what C04/C06 cover for leaves (DESIGN §5)",
     "C17": "pass x corpus-module cross product: deciding it means running each pair concretely; no symbolic dimension (DESIGN §5)",
